@@ -110,6 +110,7 @@ theorem blocked_of_none {net : Net} {s : NState} {t : Nat} {ts : TSt} {i : Instr
     · simp at h
   | finish sv => simp at h
   | dropEpi => simp at h
+  | setEpi ms => simp at h
 
 theorem terminal_none {net : Net} {s : NState} (h : s.terminal net = true) (t : Nat) : step net s t = none := by
   by_cases ht : t < s.thr.length
@@ -590,13 +591,12 @@ theorem Term.all_ended (x : Term net c s) : ∀ (t : Nat) (ts : TSt), s.thr[t]? 
                 | nil => exact hne rfl
                 | cons y a'' =>
                   simp only [List.cons_append, List.cons.injEq] at he
-                  have : y ∈ (List.range net.mbs.length).map Instr.killIfExc := suffix_mem hs (by simp)
-                  simp only [List.mem_map, List.mem_range] at this
-                  obtain ⟨_, _, h3⟩ := this
-                  rw [← he.1] at h3; cases h3
+                  have := suffix_mem hs (List.mem_cons_self (a := y) (l := a''))
+                  simp only [List.mem_cons, List.mem_map, List.mem_range] at this
+                  rcases this with h3 | ⟨_, _, h3⟩ <;> (rw [← he.1] at h3; cases h3)
             have hall : ∀ m, m < net.mbs.length → s.killedMb m := by
               intro m hm
-              rcases hk1 m (by rw [hepi]; simp only [List.mem_append, List.mem_map, List.mem_range]; exact Or.inl (Or.inl ⟨m, hm, rfl⟩)) with h2 | h2
+              rcases hk1 m (by rw [hepi]; simp only [List.mem_append, List.mem_cons, List.mem_map, List.mem_range]; exact Or.inl (Or.inl (Or.inr ⟨m, hm, rfl⟩))) with h2 | h2
               · exact absurd h2 (hnokill m)
               · exact h2
             exact hnend (x.all_killed_ended hall hune htu)
